@@ -805,13 +805,13 @@ def g_downsample(draw, s, dt):
     f = [draw(st.integers(1, 3)) for _ in s]
     shift = None
     if draw(st.booleans()):
-        shift = [draw(st.integers(0, min(ff, n) - 1)) for ff, n in zip(f, s)]
+        shift = [draw(st.integers(0, (n if draw(st.booleans()) else min(ff, n)) - 1)) for ff, n in zip(f, s)]
     return {"op": "Downsample", "ishape": list(s), "factors": f, "shift": shift}
 
 
 def g_upsample(draw, s, dt):
     f = [draw(st.integers(1, 3)) for _ in s]
-    shift = [draw(st.integers(0, ff - 1)) for ff in f] if draw(st.booleans()) else None
+    shift = [draw(st.integers(0, (2 * ff if draw(st.booleans()) else ff - 1))) for ff in f] if draw(st.booleans()) else None
     sh = shift or [0] * len(s)
     o = [x + (n - 1) * ff + 1 + draw(st.integers(0, ff - 1)) for n, ff, x in zip(s, f, sh)]
     if prod(o) > MAX_OUT:
